@@ -173,17 +173,17 @@ class Ctx(object):
         return False
 
     def _violation(self, label, call, info):
+        decisions = sym.decisions()          # pins the symbolic integers of this path first
         if callable(info):
             try:
                 info = info()
             except Exception as e:          # rendering must never mask the violation itself
                 info = 'info not renderable: %s' % type(e).__name__
         try:
-            info = sym.deep_realize(info)
+            info = sym.concretize(info)
         except Exception as e:
-            info = 'info not realizable: %s' % type(e).__name__
-        v = dict(label=label, witness=call, info=info,
-                 decisions=sym.decisions(), case=self.case_text)
+            info = 'info not concretizable: %s' % type(e).__name__
+        v = dict(label=label, witness=call, info=info, decisions=decisions, case=self.case_text)
         self.violations.append(v)
 
 
